@@ -127,16 +127,30 @@ def C04_pass_total_full : Prop :=
 theorem C04_pass_total_partial (p : PassId) (S : Schemas) (hc : passCond p S = true) :
     isPanic (p.run S) = false := pass_total p S hc
 
-/-- the passes without any partial operation are total outright -/
+/-- the passes without any partial operation are total outright (since fix 30da046 of /repo
+    `DisjunctionWithNullToOptional` is one of them) -/
 theorem C04_pass_total_unconditional (S : Schemas) :
     isPanic (PassId.run .anonymousStructsToNamed S) = false ∧
     isPanic (PassId.run .notRequiredFieldAsNullableType S) = false ∧
     isPanic (PassId.run .anonymousEnumToExplicitType S) = false ∧
     isPanic (PassId.run .disjunctionOfAnonymousStructsToExplicit S) = false ∧
-    isPanic (PassId.run .renameNumericEnumValues S) = false :=
-  ⟨pass_total _ S rfl, pass_total _ S rfl, pass_total _ S rfl, pass_total _ S rfl, pass_total _ S rfl⟩
+    isPanic (PassId.run .renameNumericEnumValues S) = false ∧
+    isPanic (PassId.run .disjunctionWithNullToOptional S) = false :=
+  ⟨pass_total _ S rfl, pass_total _ S rfl, pass_total _ S rfl, pass_total _ S rfl, pass_total _ S rfl, pass_total _ S rfl⟩
 
-/-! witnesses: each is `wfIR`, each makes one pass panic at one site -/
+theorem enumMembersOk_of_wf (S : Schemas) (h : wfIR S = true) : EnumMembersOk S = true := by
+  have hn : enumMembersOkNode = enumMembersScalarNode := by
+    funext t; cases t <;> rfl
+  simp only [wfIR, Bool.and_eq_true] at h
+  simpa [EnumMembersOk, hn] using h.2
+
+/-- since fix aceba4d of /repo the two enum naming passes are total on every well-formed IR (the only
+    dereference left is `member.Type.Scalar`, a conjunct of `wfIR`) -/
+theorem C04_pass_total_wf (S : Schemas) (h : wfIR S = true) :
+    isPanic (PassId.run .prefixEnumValues S) = false ∧ isPanic (PassId.run .sanitizeEnumMemberNames S) = false :=
+  ⟨pass_total _ S (enumMembersOk_of_wf S h), pass_total _ S (enumMembersOk_of_wf S h)⟩
+
+/-! witnesses: each is `wfIR` -/
 
 /-- `enum: ["a", 1]` (JSON Schema types the members by the first value) -/
 def wMixedEnum : Schemas := schemas [obj "E" (.enum
@@ -163,27 +177,60 @@ def wRecursiveUnion : Schemas := schemas [obj "X" (union [.ref "p" "X" {}, .scal
 def wVariantHint : Schemas := schemas [obj "S" (.struct [] [] none {}),
   obj "Al" (.ref "p" "S" { hints := [("implements_variant", .int "i64" 1)] })]
 
+/-- still false: an alias cycle (`A = ref A`) overflows the stack in `Schema.Resolve` -/
 theorem C04_pass_total_counterexample : ¬ C04_pass_total_full := by
   intro h
-  have := h .prefixEnumValues wMixedEnum (by decide +kernel)
+  have := h .flattenDisjunctions wAliasCycle (by decide +kernel)
   exact absurd this (by decide +kernel)
 
-/-- one kernel-checked witness per panic site of the pass models -/
+/-- one kernel-checked witness per panic site LEFT in the pass models -/
 theorem C04_pass_witnesses :
-    (wfIR wMixedEnum = true ∧ panicsAt (PrefixEnumValues.run wMixedEnum) "PrefixEnumValues: member.Value.(string)" = true) ∧
-    (wfIR wMixedEnum = true ∧ panicsAt (SanitizeEnumMemberNames.run wEmptyName) "SanitizeEnumMemberNames: member.Name[0]" = true) ∧
-    (wfIR wEmptyName = true ∧ panicsAt (PrefixEnumValues.run wEmptyName) "PrefixEnumValues: member.Name[0]" = true) ∧
-    (wfIR wNullNull = true ∧ panicsAt (DisjunctionWithNullToOptional.run wNullNull) "DisjunctionWithNullToOptional: NonNullTypes()[0]" = true) ∧
     (wfIR wAliasCycle = true ∧ panicsAt (FlattenDisjunctions.run wAliasCycle) "stack-overflow" = true) ∧
-    (wfIR wEmptyUnion = true ∧ panicsAt (DisjunctionInferMapping.run wEmptyUnion) "DisjunctionInferMapping: def.Branches[0]" = true) ∧
-    (wfIR wDiscriminatorOnScalars = true ∧
-      panicsAt (DisjunctionInferMapping.run wDiscriminatorOnScalars) "DisjunctionInferMapping: referredType.AsStruct()" = true) ∧
-    (wfIR wDiscriminatorNonString = true ∧
-      panicsAt (DisjunctionInferMapping.run wDiscriminatorNonString) "DisjunctionInferMapping: Value.(string)" = true) ∧
     (wfIR wRecursiveUnion = true ∧ panicsAt (DisjunctionOfConstantsToEnum.run wRecursiveUnion) "stack-overflow" = true) ∧
     (wfIR wVariantHint = true ∧
       panicsAt (RemoveIntersections.run wVariantHint) "RemoveIntersections: Hints[implements_variant].(string)" = true) := by
-  refine ⟨⟨?_, ?_⟩, ⟨?_, ?_⟩, ⟨?_, ?_⟩, ⟨?_, ?_⟩, ⟨?_, ?_⟩, ⟨?_, ?_⟩, ⟨?_, ?_⟩, ⟨?_, ?_⟩, ⟨?_, ?_⟩, ⟨?_, ?_⟩⟩ <;> decide +kernel
+  refine ⟨⟨?_, ?_⟩, ⟨?_, ?_⟩, ⟨?_, ?_⟩⟩ <;> decide +kernel
+
+/-- the sites removed by the /repo fixes aceba4d, 30da046, 375123d, 146d1ec: the PRE-FIX models panic on
+    these well-formed inputs (the former counterexamples of `C04_pass_total_full`) … -/
+theorem C04_pass_prefix_witnesses :
+    (wfIR wMixedEnum = true ∧ wfIR wEmptyName = true ∧ wfIR wNullNull = true ∧ wfIR wEmptyUnion = true ∧
+      wfIR wDiscriminatorOnScalars = true ∧ wfIR wDiscriminatorNonString = true) ∧
+    panicsAt (PrefixEnumValues.memberNamePreFix { name := "1", value := .int "i64" 1, kind := "string" })
+      "PrefixEnumValues: member.Value.(string)" = true ∧
+    panicsAt (PrefixEnumValues.memberNamePreFix { name := "", value := .str "", kind := "int64" })
+      "PrefixEnumValues: member.Name[0]" = true ∧
+    panicsAt (SanitizeEnumMemberNames.sanitizeMemberPreFix { name := "", value := .str "", kind := "int64" })
+      "SanitizeEnumMemberNames: member.Name[0]" = true ∧
+    panicsAt (DisjunctionWithNullToOptional.runPreFix wNullNull) "DisjunctionWithNullToOptional: NonNullTypes()[0]" = true ∧
+    panicsAt (DisjunctionInferMapping.runPreFix wEmptyUnion) "DisjunctionInferMapping: def.Branches[0]" = true ∧
+    panicsAt (DisjunctionInferMapping.runPreFix wDiscriminatorOnScalars) "DisjunctionInferMapping: referredType.AsStruct()" = true ∧
+    panicsAt (DisjunctionInferMapping.runPreFix wDiscriminatorNonString) "DisjunctionInferMapping: Value.(string)" = true := by
+  refine ⟨⟨?_, ?_, ?_, ?_, ?_, ?_⟩, ?_, ?_, ?_, ?_, ?_, ?_, ?_⟩ <;> decide +kernel
+
+/-- … and the current models do not (instances of the strengthened totality theorems) -/
+theorem C04_pass_fixed :
+    isPanic (PrefixEnumValues.run wMixedEnum) = false ∧ isPanic (PrefixEnumValues.run wEmptyName) = false ∧
+    isPanic (SanitizeEnumMemberNames.run wMixedEnum) = false ∧ isPanic (SanitizeEnumMemberNames.run wEmptyName) = false ∧
+    isPanic (DisjunctionWithNullToOptional.run wNullNull) = false ∧
+    isPanic (DisjunctionInferMapping.run wEmptyUnion) = false ∧
+    isPanic (DisjunctionInferMapping.run wDiscriminatorOnScalars) = false ∧
+    isPanic (DisjunctionInferMapping.run wDiscriminatorNonString) = false :=
+  ⟨(C04_pass_total_wf wMixedEnum (by decide +kernel)).1, (C04_pass_total_wf wEmptyName (by decide +kernel)).1,
+   (C04_pass_total_wf wMixedEnum (by decide +kernel)).2, (C04_pass_total_wf wEmptyName (by decide +kernel)).2,
+   disjunctionWithNullToOptional_total wNullNull,
+   disjunctionInferMapping_total _ wEmptyUnion (by decide +kernel),
+   disjunctionInferMapping_total _ wDiscriminatorOnScalars (by decide +kernel),
+   disjunctionInferMapping_total _ wDiscriminatorNonString (by decide +kernel)⟩
+
+/-- the pre-fix passes were total under the conditions that have now been dropped -/
+theorem C04_pass_prefix_partial (S : Schemas) :
+    (NoNullOnlyUnion S = true → isPanic (DisjunctionWithNullToOptional.runPreFix S) = false) ∧
+    (LocalAliasAcyclic S = true → InferMappingSafe S = true → isPanic (DisjunctionInferMapping.runPreFix S) = false) ∧
+    (∀ v, memberOkPreFix v = true → isPanic (PrefixEnumValues.memberNamePreFix v) = false ∧
+      isPanic (SanitizeEnumMemberNames.sanitizeMemberPreFix v) = false) :=
+  ⟨disjunctionWithNullToOptionalPreFix_total S, disjunctionInferMappingPreFix_total S,
+   fun v h => ⟨prefix_memberNamePreFix_noPanic v h, sanitizeMemberPreFix_noPanic v h⟩⟩
 
 /-- the hypotheses of the partial theorem are satisfiable and not vacuous -/
 example : wfIR plain = true ∧ ∀ p : PassId, passCond p plain = true := by
@@ -211,7 +258,7 @@ theorem C04_chain_panic_blames (ps : List PassId) (S : Schemas) (h : isPanic (ru
 
 theorem C04_chain_total_counterexample : ¬ C04_chain_total_full := by
   intro h
-  have := h "go" Cog.Gen.Chains.goChain wMixedEnum rfl (by decide +kernel)
+  have := h "go" Cog.Gen.Chains.goChain wAliasCycle rfl (by decide +kernel)
   exact absurd this (by decide +kernel)
 
 /-- non-vacuity: the five regenerated chains satisfy `chainCond` on a plain struct schema -/
@@ -222,28 +269,45 @@ example : chainCond Cog.Gen.Chains.goChain plain = true ∧ chainCond Cog.Gen.Ch
 
 /-! ## 3. YAML-configured transformations -/
 
-/-- single transformation, well-formed IR: FALSE (constant_to_enum on `{type: string, const: 1}`) -/
+/-- single transformation, well-formed IR: FALSE (a malformed `as:` type, e.g. `{kind: array}` without
+    its payload: `TypeName(as)` dereferences the nil kind pointer) -/
 def C04_xform_total_full : Prop :=
   ∀ (x : Xf) (S : Schemas), wfIR S = true → isPanic (x.run S) = false
 
 theorem C04_xform_total_partial (x : Xf) (S : Schemas) (hc : xfCond x S = true) :
     isPanic (x.run S) = false := xform_total x S hc
 
+/-- `retype_object: {object: p.A, as: {kind: array}}` -/
+def retypeBadArray : Xf := .retypeObject { object := ⟨"p", "A"⟩, as_ := .bad "array" {}, comments := none }
+
+theorem C04_xform_total_counterexample : ¬ C04_xform_total_full := by
+  intro h
+  have := h retypeBadArray plain (by decide +kernel)
+  exact absurd this (by decide +kernel)
+
 /-- JSON Schema `{ "type": "string", "const": 1 }`: a string scalar whose value is not a string -/
 def wStringConstInt : Schemas := schemas [obj "K" (.scalar "string" (.int "i64" 1) [] {})]
 def constantToEnumK : Xf := .constantToEnum { objects := [⟨"p", "K"⟩] }
 
-theorem C04_xform_total_counterexample : ¬ C04_xform_total_full := by
-  intro h
-  have := h constantToEnumK wStringConstInt (by decide +kernel)
-  exact absurd this (by decide +kernel)
+/-- since fix 637545e of /repo `constant_to_enum` needs nothing beyond `NoBad` (part of `wfIR`) -/
+theorem C04_constant_to_enum_total (p : ConstantToEnum.Params) (S : Schemas) (h : wfIR S = true) :
+    isPanic ((Xf.constantToEnum p).run S) = false := by
+  apply xform_total
+  show NoBad S = true
+  exact noBad_of_wf S h
 
-/-- a whole configuration file: well-formed IR whose string constants hold strings, `as:` types without
-    nil kind pointers — FALSE: `retype_object` installs a string scalar holding a number (the YAML
-    decoder does not relate `value` to `scalar_kind`), then `constant_to_enum` asserts `.(string)` -/
+/-- a whole configuration file on a well-formed IR: FALSE, by a malformed `as:` (`C04_config_malformed_as`) -/
 def C04_config_total_full : Prop :=
-  ∀ (xs : List Xf) (S : Schemas), wfIR S = true → ScalarConstantsTyped S = true →
-    (∀ x ∈ xs, ∀ p, x = .retypeObject p → Cog.NF.noBadTy p.as_ = true) → isPanic (applyAll xs S) = false
+  ∀ (xs : List Xf) (S : Schemas), wfIR S = true → isPanic (applyAll xs S) = false
+
+/-- OPEN (neither proved nor refuted here): with `as:` / field / object types free of nil kind pointers a
+    configuration made of the YAML-reachable transformations no longer has a known panic since fix 637545e.
+    The proved statement is `C04_config_total_partial` (the condition is re-checked on every intermediate IR). -/
+def C04_config_total_wellformed_as : Prop :=
+  ∀ (xs : List Xf) (S : Schemas), wfIR S = true →
+    (∀ x ∈ xs, (∀ p, x = .retypeObject p → Cog.NF.noBadTy p.as_ = true) ∧ (∀ p, x = .retypeField p → Cog.NF.noBadTy p.as_ = true) ∧
+      (∀ p, x ≠ .prefixObjectNames p)) →
+    xformsCond xs S = true
 
 theorem C04_config_total_partial (xs : List Xf) (S : Schemas) (hc : xformsCond xs S = true) :
     isPanic (applyAll xs S) = false := xforms_total xs S hc
@@ -256,14 +320,20 @@ def retypeThenConstantToEnum : List Xf :=
 
 theorem C04_config_total_counterexample : ¬ C04_config_total_full := by
   intro h
-  have := h retypeThenConstantToEnum plain (by decide +kernel) (by decide +kernel)
-    (by
-      intro x hx p hp
-      simp only [retypeThenConstantToEnum, List.mem_cons, List.mem_nil_iff, or_false] at hx
-      rcases hx with rfl | rfl
-      · cases hp; decide +kernel
-      · cases hp)
+  have := h [.retypeObject { object := ⟨"p", "A"⟩, as_ := .bad "struct" {}, comments := none },
+             .fieldsSetRequired { fields := [] }] plain (by decide +kernel)
   exact absurd this (by decide +kernel)
+
+/-- the former counterexample (`retype_object` installs a string scalar holding a number, then
+    `constant_to_enum`): the pre-fix model panics, the current one does not, and the pre-fix one was total
+    when string scalars hold strings -/
+theorem C04_constant_to_enum_prefix_panicked :
+    isPanic (ConstantToEnum.runPreFix { objects := [⟨"p", "K"⟩] } wStringConstInt) = true ∧
+    isPanic (constantToEnumK.run wStringConstInt) = false ∧
+    isPanic (applyAll retypeThenConstantToEnum plain) = false ∧
+    (∀ p S, (NoBad S && ScalarConstantsTyped S) = true → isPanic (ConstantToEnum.runPreFix p S) = false) :=
+  ⟨by decide +kernel, C04_constant_to_enum_total _ _ (by decide +kernel), by decide +kernel,
+   fun p S h => constantToEnumPreFix_total p S h⟩
 
 /-- `hint_object` on a type decoded from YAML (nil `Hints` map) panicked before fix d683cb9 of /repo;
     the pre-fix behaviour is kept in the model as `HintObject.runPreFix` -/
@@ -317,9 +387,20 @@ theorem C04_option_actions_total_partial (o : Cog.Builder.Opt) (h : optShapeOk o
     isPanic (Cog.Builder.arrayToAppendAction o) = false ∧
     isPanic (Cog.Builder.mapToIndexAction o) = false ∧
     (∀ names, isPanic (Cog.Builder.renameArgumentsAction names o) = false) ∧
-    (∀ idx ss, disjunctionIndexOk idx o = true → isPanic (Cog.Builder.disjunctionAsOptionsAction idx ss o) = false) :=
+    (∀ idx ss, disjunctionTargetOk idx o = true → isPanic (Cog.Builder.disjunctionAsOptionsAction idx ss o) = false) :=
   ⟨fun t f => unfoldBoolean_total t f o h, arrayToAppend_total o h, mapToIndex_total o h,
    fun names => renameArguments_total names o, fun idx ss hi => disjunctionAsOptions_total idx ss o hi⟩
+
+/-- `disjunction_as_options` with an `argument_index` outside the option's arguments: a panic before fix
+    423e7f3 of /repo (`option.Args[argumentIndex]`), the option unchanged since — for EVERY option -/
+theorem C04_disjunction_as_options_index_fixed :
+    (∀ (idx : Int) ss (o : Cog.Builder.Opt), (idx < 0 ∨ o.args.length ≤ idx.toNat) →
+      isPanic (Cog.Builder.disjunctionAsOptionsAction idx ss o) = false) ∧
+    isPanic (Cog.Builder.disjunctionAsOptionsActionPreFix 3 []
+      { name := "a", args := [{ name := "v", ty := .scalar "string" .nil [] {} }] }) = true ∧
+    (∀ idx ss o, disjunctionIndexOk idx o = true → isPanic (Cog.Builder.disjunctionAsOptionsActionPreFix idx ss o) = false) :=
+  ⟨fun idx ss o h => disjunctionAsOptions_out_of_range idx ss o h, by decide +kernel,
+   fun idx ss o h => disjunctionAsOptionsPreFix_total idx ss o h⟩
 
 /-- `add_option: { option: { name: flag } }` then `unfold_boolean` on it -/
 theorem C04_option_actions_total_counterexample : ¬ C04_option_actions_total_full := by
@@ -329,7 +410,7 @@ theorem C04_option_actions_total_counterexample : ¬ C04_option_actions_total_fu
 
 /-! ## 5. front-ends, from the library's in-memory value down
 
-The models have two versions: `generateASTPreFix` (before the /repo fixes 70c59a6, 4e6f2a6, ca4fdd6 for
+The models have two versions: `generateASTPreFix` (before the /repo fixes 70c59a6, 4e6f2a6, ca4fdd6, fd9167a for
 OpenAPI and f0d68ac for JSON Schema) and `generateAST` (current).  The former defects stay checked
 statements about the pre-fix version; the current version is total on every value the libraries can
 produce. -/
@@ -387,6 +468,34 @@ theorem C04_parse_openapi_fixed :
     isPanic (OpenApi.generateAST "pkg" (some OApiW.arrayWithoutItems)) = false ∧
     isPanic (OpenApi.generateAST "pkg" (some OApiW.unresolvedComponent)) = false := by
   refine ⟨?_, ?_, ?_⟩ <;> decide +kernel
+
+namespace OApiW
+open Cog.Total.OpenApi
+/-- `E: { type: string, enum: [] }` -/
+def emptyEnum : List (String × ORef) := [("E", .resolved "" (schema { enum := some [], types := some ["string"] }))]
+/-- `U: { oneOf: [] }` -/
+def emptyOneOf : List (String × ORef) := [("U", .resolved "" (schema { hasOneOf := true }))]
+end OApiW
+
+open Cog.Total.OpenApi in
+/-- since fix fd9167a of /repo the OpenAPI generator never returns an empty enum or an empty union
+    (the shapes on which EnumType.MemberForValue, the enum formatters and DisjunctionInferMapping used to
+    panic), for every in-memory value -/
+theorem C04_parse_openapi_no_empty_enum_or_union (pkg : String) (cs : Option (List (String × ORef))) (s : Schema)
+    (h : OpenApi.generateAST pkg cs = .ok s) : allSchemas OpenApi.nonEmptyNode [s] = true :=
+  generateAST_nonEmpty pkg cs s h
+
+open Cog.Total.OpenApi in
+/-- before it `enum: []` and `oneOf: []` went through (pre-fix model: an `ok` result holding the empty
+    enum / union); now they are `err` returns -/
+theorem C04_parse_openapi_empty_prefix_witnesses :
+    (match OpenApi.generateASTPreFix "pkg" (some OApiW.emptyEnum) with
+      | .ok s => !allSchemas OpenApi.nonEmptyNode [s] | _ => false) = true ∧
+    (match OpenApi.generateASTPreFix "pkg" (some OApiW.emptyOneOf) with
+      | .ok s => !allSchemas OpenApi.nonEmptyNode [s] | _ => false) = true ∧
+    (match OpenApi.generateAST "pkg" (some OApiW.emptyEnum) with | .err _ => true | _ => false) = true ∧
+    (match OpenApi.generateAST "pkg" (some OApiW.emptyOneOf) with | .err _ => true | _ => false) = true := by
+  refine ⟨?_, ?_, ?_, ?_⟩ <;> decide +kernel
 
 open Cog.Total.JsonSchema in
 def C04_parse_total_jsonschema_full : Prop :=
